@@ -74,6 +74,17 @@ Lemma dec_enc_paths_f64 D (ps : cpaths Z) : (0 < D)%nat -> Forall (Forall (dims 
   f64_dec_paths D (f64_enc_paths D ps) = Some (filter nonempty ps).
 Proof. apply (dec_enc_paths Z ofc_f64 toc_f64 0 (2 ^ 53) toc_ofc_f64). Qed.
 
+(* caller-built arrays (every path an entry, empty ones as [0; 0]) decode to exactly those paths *)
+Lemma dec_hand_built_i64 D (ps : cpaths Z) : (0 < D)%nat -> Forall (Forall (dims Z D)) ps ->
+  Z.of_nat (length (enc_paths_raw Z ofc_i64 0 ps)) < 2 ^ 63 ->
+  i64_dec_paths D (enc_paths_raw Z ofc_i64 0 ps) = Some ps.
+Proof. apply (dec_enc_paths_raw Z ofc_i64 toc_i64 0 (2 ^ 63) toc_ofc_i64). Qed.
+
+Lemma dec_hand_built_f64 D (ps : cpaths Z) : (0 < D)%nat -> Forall (Forall (dims Z D)) ps ->
+  Z.of_nat (length (enc_paths_raw Z ofc_f64 0 ps)) < 2 ^ 53 ->
+  f64_dec_paths D (enc_paths_raw Z ofc_f64 0 ps) = Some ps.
+Proof. apply (dec_enc_paths_raw Z ofc_f64 toc_f64 0 (2 ^ 53) toc_ofc_f64). Qed.
+
 (* int64 arrays: the first element IS the length, the second the number of non-empty paths *)
 Lemma enc_len_i64 D (ps : cpaths Z) : Forall (Forall (dims Z D)) ps ->
   hd 0 (i64_enc_paths D ps) = Z.of_nat (length (i64_enc_paths D ps)) /\
@@ -97,6 +108,12 @@ Example hyp_sat_3 :
   let ps := [[[0;0;11];[5;0;12]]; []] in
   (0 < 3)%nat /\ Forall (Forall (dims Z 3)) ps /\ Z.of_nat (length (f64_enc_paths 3 ps)) < 2 ^ 53.
 Proof. cbv zeta. split; [lia|]. split; [repeat constructor|vm_compute; reflexivity]. Qed.
+
+Example hyp_sat_raw :
+  let ps := [[[0;0;11];[5;0;12]]; []; [[7;8;9]]] in
+  (0 < 3)%nat /\ Forall (Forall (dims Z 3)) ps /\ Z.of_nat (length (enc_paths_raw Z ofc_f64 0 ps)) < 2 ^ 53
+  /\ filter nonempty ps <> ps.
+Proof. cbv zeta. split; [lia|]. split; [repeat constructor|]. split; [vm_compute; reflexivity|discriminate]. Qed.
 
 Example hyp_sat_tree :
   let ch := [PNode [[0;0];[9;0];[9;9]] [PNode [[1;1];[2;1];[2;2]] []]; PNode [[20;20]] []] in
